@@ -330,4 +330,225 @@ def kDec : Decoder KMsg := fun bs =>
       else if label = 2 then .ok .done (n1 + n2)
       else .fail
 
+/-! ## block-fetch codec (`miniprotocols/blockfetch/codec.rs`, `common.rs::Point`; same wire format in
+     `pallas-network2/src/protocol/{blockfetch,common}.rs`) over the same primitive model -/
+
+/-- position-passing parser: value and bytes consumed -/
+abbrev P (α : Type) := Bytes → Prim α
+
+def P.pure {α : Type} (a : α) : P α := fun _ => .ok a 0
+
+def P.fail {α : Type} : P α := fun _ => .fail
+
+/-- sequencing (`?` on every primitive call) -/
+def P.bind {α β : Type} (p : P α) (f : α → P β) : P β := fun bs =>
+  match p bs with
+  | .ok a n =>
+    match f a (bs.drop n) with
+    | .ok b m => .ok b (n + m)
+    | .eoi => .eoi
+    | .fail => .fail
+  | .eoi => .eoi
+  | .fail => .fail
+
+/-- a head of the given major type with a definite argument (`Decoder::unsigned` after the type check):
+    `u64()` is `primHead 0`, `tag()` is `primHead 6`, the length of `bytes()` is `primHead 2` -/
+def primHead (major : Nat) : P Nat
+  | [] => .eoi
+  | b :: rest =>
+    if b.toNat / 32 ≠ major then mismatch b rest
+    else if b.toNat % 32 ≥ 28 then .fail
+    else
+      match headArg (b.toNat % 32) rest with
+      | none => .eoi
+      | some (v, used) => .ok v (1 + used)
+
+/-- `Decoder::u64` -/
+def primU64 : P Nat := primHead 0
+/-- `Decoder::tag` -/
+def primTag : P Nat := primHead 6
+/-- `Decoder::bytes`: definite length only, then `read_slice(n)` -/
+def primBytes : P Bytes := P.bind (primHead 2) fun n => fun bs =>
+  if bs.length < n then .eoi else .ok (bs.take n) n
+
+/-- minicbor encoder heads: shortest form -/
+def encHead (major n : Nat) : Bytes :=
+  if n < 24 then [UInt8.ofNat (major * 32 + n)]
+  else if n < 256 then [UInt8.ofNat (major * 32 + 24), UInt8.ofNat n]
+  else if n < 65536 then [UInt8.ofNat (major * 32 + 25), UInt8.ofNat (n / 256), UInt8.ofNat n]
+  else if n < 4294967296 then
+    [UInt8.ofNat (major * 32 + 26), UInt8.ofNat (n / 16777216), UInt8.ofNat (n / 65536),
+      UInt8.ofNat (n / 256), UInt8.ofNat n]
+  else
+    [UInt8.ofNat (major * 32 + 27), UInt8.ofNat (n / 72057594037927936),
+      UInt8.ofNat (n / 281474976710656), UInt8.ofNat (n / 1099511627776), UInt8.ofNat (n / 4294967296),
+      UInt8.ofNat (n / 16777216), UInt8.ofNat (n / 65536), UInt8.ofNat (n / 256), UInt8.ofNat n]
+
+/-- `Point` -/
+inductive Pt where
+  | origin
+  | specific (slot : Nat) (hash : Bytes)
+  deriving DecidableEq, Repr
+
+/-- `Encode for Point`: `array(0)` / `array(2) u64(slot) bytes(hash)` -/
+def ptEnc : Pt → Bytes
+  | .origin => [0x80]
+  | .specific slot hash => [0x82] ++ encHead 0 slot ++ (encHead 2 hash.length ++ hash)
+
+/-- `Decode for Point` -/
+def pPoint : P Pt := P.bind primArray fun size =>
+  match size with
+  | some 0 => P.pure .origin
+  | some 2 => P.bind primU64 fun slot => P.bind primBytes fun hash => P.pure (.specific slot hash)
+  | _ => P.fail
+
+inductive BFMsg where
+  | requestRange (p1 p2 : Pt)
+  | clientDone
+  | startBatch
+  | noBlocks
+  | block (body : Bytes)
+  | batchDone
+  deriving DecidableEq, Repr
+
+/-- `Encode for blockfetch::Message` -/
+def bfEnc : BFMsg → Bytes
+  | .requestRange p1 p2 => [0x83, 0x00] ++ (ptEnc p1 ++ ptEnc p2)
+  | .clientDone => [0x81, 0x01]
+  | .startBatch => [0x81, 0x02]
+  | .noBlocks => [0x81, 0x03]
+  | .block body => [0x82, 0x04] ++ ([0xd8, 0x18] ++ (encHead 2 body.length ++ body))
+  | .batchDone => [0x81, 0x05]
+
+/-- `Decode for blockfetch::Message` -/
+def pBlockFetch : P BFMsg := P.bind primArray fun _ => P.bind primU16 fun label =>
+  if label = 0 then P.bind pPoint fun p1 => P.bind pPoint fun p2 => P.pure (.requestRange p1 p2)
+  else if label = 1 then P.pure .clientDone
+  else if label = 2 then P.pure .startBatch
+  else if label = 3 then P.pure .noBlocks
+  else if label = 4 then P.bind primTag fun _ => P.bind primBytes fun body => P.pure (.block body)
+  else if label = 5 then P.pure .batchDone
+  else P.fail
+
+def bfDec : Decoder BFMsg := fun bs =>
+  match pBlockFetch bs with
+  | .ok m n => .ok m n
+  | .eoi => .eoi
+  | .fail => .fail
+
+/-! ## chain-sync codec, node-to-node flavour (`miniprotocols/chainsync/codec.rs` with `HeaderContent`;
+     same wire format in `pallas-network2/src/protocol/chainsync.rs`) -/
+
+/-- `Decoder::u8`: an unsigned head of any width whose value fits -/
+def primU8 : P Nat
+  | [] => .eoi
+  | b :: rest =>
+    if b.toNat / 32 ≠ 0 then mismatch b rest
+    else if b.toNat % 32 ≥ 28 then .fail
+    else
+      match headArg (b.toNat % 32) rest with
+      | none => .eoi
+      | some (v, used) => if v < 256 then .ok v (1 + used) else .fail
+
+/-- `k` items in a row (`ArrayIter`, `State::Def(k)`) -/
+def pRepeat {α : Type} (p : P α) : Nat → P (List α)
+  | 0 => P.pure []
+  | k + 1 => P.bind p fun x => P.bind (pRepeat p k) fun xs => P.pure (x :: xs)
+
+/-- items up to a break (`ArrayIter`, `State::Indef`); fuel = bytes available -/
+def pUntilBreak {α : Type} (p : P α) : Nat → P (List α)
+  | 0 => P.fail
+  | fuel + 1 => fun bs =>
+    match bs with
+    | [] => .eoi
+    | b :: _ =>
+      if b = 0xFF then .ok [] 1
+      else (P.bind p fun x => P.bind (pUntilBreak p fuel) fun xs => P.pure (x :: xs)) bs
+
+/-- `Vec<T>::decode`: `array_iter`, definite or indefinite -/
+def pVec {α : Type} (p : P α) : P (List α) := fun bs =>
+  (P.bind primArray fun n =>
+    match n with
+    | some k => pRepeat p k
+    | none => pUntilBreak p bs.length) bs
+
+/-- `Tip(Point, u64)` -/
+structure Tip where
+  point : Pt
+  blockNo : Nat
+  deriving DecidableEq, Repr
+
+def tipEnc (t : Tip) : Bytes := [0x82] ++ (ptEnc t.point ++ encHead 0 t.blockNo)
+
+/-- `Decode for Tip` -/
+def pTip : P Tip := P.bind primArray fun _ => P.bind pPoint fun p => P.bind primU64 fun n => P.pure ⟨p, n⟩
+
+/-- `HeaderContent` -/
+structure Header where
+  variant : Nat                       -- u8
+  byronPrefix : Option (Nat × Nat)    -- (u8, u64)
+  cbor : Bytes
+  deriving DecidableEq, Repr
+
+/-- `Encode for HeaderContent` (the `Err` of variant 0 without prefix is outside the domain) -/
+def hdrEnc (h : Header) : Bytes :=
+  [0x82] ++ (encHead 0 h.variant ++
+    (if h.variant = 0 then
+      match h.byronPrefix with
+      | some (a, b) =>
+        [0x82] ++ (([0x82] ++ (encHead 0 a ++ encHead 0 b)) ++ ([0xd8, 0x18] ++ (encHead 2 h.cbor.length ++ h.cbor)))
+      | none => []
+    else [0xd8, 0x18] ++ (encHead 2 h.cbor.length ++ h.cbor)))
+
+/-- the 2-tuple `(u8, u64)`: a definite array of exactly two items -/
+def pPrefix : P (Nat × Nat) := P.bind primArray fun n =>
+  if n = some 2 then P.bind primU8 fun a => P.bind primU64 fun b => P.pure (a, b) else P.fail
+
+/-- `Decode for HeaderContent` -/
+def pHeader : P Header := P.bind primArray fun _ => P.bind primU8 fun variant =>
+  if variant = 0 then
+    P.bind primArray fun _ => P.bind pPrefix fun ab => P.bind primTag fun _ => P.bind primBytes fun bytes =>
+      P.pure ⟨variant, some ab, bytes⟩
+  else P.bind primTag fun _ => P.bind primBytes fun bytes => P.pure ⟨variant, none, bytes⟩
+
+inductive CSMsg where
+  | requestNext
+  | awaitReply
+  | rollForward (content : Header) (tip : Tip)
+  | rollBackward (point : Pt) (tip : Tip)
+  | findIntersect (points : List Pt)
+  | intersectFound (point : Pt) (tip : Tip)
+  | intersectNotFound (tip : Tip)
+  | done
+  deriving DecidableEq, Repr
+
+/-- `Encode for chainsync::Message<HeaderContent>` -/
+def csEnc : CSMsg → Bytes
+  | .requestNext => [0x81, 0x00]
+  | .awaitReply => [0x81, 0x01]
+  | .rollForward c t => [0x83, 0x02] ++ (hdrEnc c ++ tipEnc t)
+  | .rollBackward p t => [0x83, 0x03] ++ (ptEnc p ++ tipEnc t)
+  | .findIntersect ps => [0x82, 0x04] ++ (encHead 4 ps.length ++ (ps.map ptEnc).flatten)
+  | .intersectFound p t => [0x83, 0x05] ++ (ptEnc p ++ tipEnc t)
+  | .intersectNotFound t => [0x82, 0x06] ++ tipEnc t
+  | .done => [0x81, 0x07]
+
+/-- `Decode for chainsync::Message<HeaderContent>` -/
+def pChainSync : P CSMsg := P.bind primArray fun _ => P.bind primU16 fun label =>
+  if label = 0 then P.pure .requestNext
+  else if label = 1 then P.pure .awaitReply
+  else if label = 2 then P.bind pHeader fun c => P.bind pTip fun t => P.pure (.rollForward c t)
+  else if label = 3 then P.bind pPoint fun p => P.bind pTip fun t => P.pure (.rollBackward p t)
+  else if label = 4 then P.bind (pVec pPoint) fun ps => P.pure (.findIntersect ps)
+  else if label = 5 then P.bind pPoint fun p => P.bind pTip fun t => P.pure (.intersectFound p t)
+  else if label = 6 then P.bind pTip fun t => P.pure (.intersectNotFound t)
+  else if label = 7 then P.pure .done
+  else P.fail
+
+def csDec : Decoder CSMsg := fun bs =>
+  match pChainSync bs with
+  | .ok m n => .ok m n
+  | .eoi => .eoi
+  | .fail => .fail
+
 end PallasVerif.Reassembly
